@@ -410,7 +410,6 @@ type xlin struct {
 	allowMirrored   bool // two blocked selects, one of which sends and receives on one unbuffered channel
 	allowArmedTry   bool // a blocked operation that armed chanHasRecv and still has an empty buffer
 	noDefaultInstant bool
-	allowSelectStuck bool // a blocked select and a matching blocked partner on an unbuffered channel
 }
 
 type xspec struct {
@@ -586,9 +585,6 @@ func (l *xlin) final(st xspec) bool {
 				if l.allowArmedTry && p.armed {
 					continue
 				}
-				if l.allowSelectStuck && (o.sel || p.sel) {
-					continue
-				}
 				if l.allowMirrored && o.kind == 'a' && p.kind == 'a' && len(o.offers) > 1 && len(p.offers) > 1 && (both(o, c) || both(p, c)) {
 					continue
 				}
@@ -687,8 +683,8 @@ func (r *xrun) hops() []xhop {
 
 func xcheck(caps []int, hs []xhop, deadlock bool, relax ...bool) bool {
 	l := &xlin{caps: caps, ops: hs, deadlock: deadlock, bad: map[string]bool{}}
-	if len(relax) == 4 {
-		l.allowMirrored, l.allowArmedTry, l.noDefaultInstant, l.allowSelectStuck = relax[0], relax[1], relax[2], relax[3]
+	if len(relax) == 3 {
+		l.allowMirrored, l.allowArmedTry, l.noDefaultInstant = relax[0], relax[1], relax[2]
 	}
 	st := xspec{closed: make([]bool, len(caps))}
 	for range caps {
@@ -764,12 +760,11 @@ func (r *xrun) classify(hs []xhop, dead bool) []string {
 		return base
 	}
 	names := []string{"select-send-and-recv-same-unbuffered-channel-stuck",
-		"unbuffered-recv-armed-for-counted-sender-then-blocked", "tryselect-default-cases-probed-one-after-the-other",
-		"select-and-matching-partner-both-blocked-on-unbuffered-channel"}
-	for _, m := range []int{1, 2, 4, 3, 5, 6, 7, 8, 10, 12, 14} { // subsets of the relaxations, narrow ones first
-		if xcheck(r.cfg.Caps, rep, dead, m&1 != 0, m&2 != 0, m&4 != 0, m&8 != 0) {
+		"unbuffered-recv-armed-for-counted-sender-then-blocked", "tryselect-default-cases-probed-one-after-the-other"}
+	for _, m := range []int{1, 2, 4, 3, 5, 6, 7} { // subsets of the relaxations, small ones first
+		if xcheck(r.cfg.Caps, rep, dead, m&1 != 0, m&2 != 0, m&4 != 0) {
 			ks := append([]string{}, base...)
-			for b := 0; b < 4; b++ {
+			for b := 0; b < 3; b++ {
 				if m&(1<<uint(b)) != 0 {
 					ks = append(ks, names[b])
 				}
@@ -788,7 +783,6 @@ var xwhat = map[string]string{
 	"select-send-and-recv-same-unbuffered-channel-stuck": "a blocking select that offers a send AND a receive on the same unbuffered channel refuses select-senders on it (acceptSelectSend is switched off for that channel) and arms no receiver for them: it and another select that could be served by it stay blocked for ever",
 	"unbuffered-recv-armed-for-counted-sender-then-blocked":          "chanTryRecv (ChanTryRecv, select with default, or a blocking select's receive case) saw p.sends > 0 on an unbuffered channel, set chanHasRecv and waits in its second loop; the counted sender (a registered select-send, or a sender that then served another receiver) never delivers to it: the operation - even a non-blocking one - blocks for ever inside chanTryRecv",
 	"tryselect-default-cases-probed-one-after-the-other":      "select with default took the default although at every instant of the call one of its cases was ready: TrySelect probes the cases in separate critical sections",
-	"select-and-matching-partner-both-blocked-on-unbuffered-channel": "a blocked select and a blocked partner (plain operation or another select) whose pending operations on an unbuffered channel could complete together stay blocked for ever (lost notification / nobody arms the hand-off)",
 	"select-history-not-linearizable":                         "the observed results cannot be explained by Go's channel and select semantics",
 }
 
